@@ -69,10 +69,10 @@ CLAIMED = {
    text="Decided inside simulated training. (1) Fault injection with twin runs: (a) overwriting the successor observation of every stored terminated transition with another finite stored observation must leave the complete training trace (all logged losses, all actions, final hashes of all modules and optimisers) bit-identical for DQN, Nature-DQN, DDQN, PER-DDQN, DDPG, TD3, TD3+LAP, SAC; (b) permuting the rows of one returned batch must leave that update's logged loss and q mean unchanged to 1e-5 for the losses whose target is a function of the row alone; a control fault on non-terminated rows must change the trace. (2) Refinement: in simulated runs of DQN, Nature-DQN, DDQN, PER-DDQN, DDPG, TD3, TD3+LAP, TD7 and MR.Q every update's logged loss, q mean, mean / per-sample |TD| (and TD7's SALE loss and tracked value range) must equal a float64 reference of the documented regression onto y = r + (1-terminated)*gamma*bootstrap (max / double-Q selection / clipped double-Q minimum / TD7 value clipping / MR.Q n-step return with residual discount and reward scales) computed from a copy of the sampled batch and clones of the networks as they were at that instant of the history.",
    note="Value equality is decided on the states the simulated histories reach, not for all inputs. NOT decided: SAC's loss value (its bootstrap draws an action from an unobservable key), MR.Q's encoder loss value, gradients w.r.t. online parameters (e.g. a moved stop_gradient with identical loss values), batch size 1.",
    technique="deterministic simulation: twin runs with storage-corruption and batch-reordering faults in the replay-buffer seam; per-update refinement of the recorded training history against a float64 reference model"),
- "C07": dict(level="fault_enumeration", engine="TrainSim twin runs", design="§4 C07",
-   text="NARROW SLICE decided by fault injection inside simulated MR.Q training: rewriting, in the batch returned by one sample_batch call, every field after the first terminated step of each sampled sub-trajectory (rewards, actions, observations, successors, later flags) must leave the complete training trace (critic target/loss, encoder / dynamics / reward / done losses, priorities through later sampling, final hashes) bit-identical to the clean twin. Plus (C07.c) real A2C collection and batch preparation on 2-3 scripted environments executed twice with ONE environment's reward script rewritten: advantages and returns of the other environments must be bit-identical.",
-   note="NOT decided: GAE / reward-to-go / n-step recurrences against float64 references (pure per-call clauses); PPO's batched GAE is inside the jitted update and not observable per environment.",
-   technique="deterministic simulation twin runs with post-terminal data corruption in the replay-buffer seam"),
+ "C07": dict(level="fault_enumeration", engine="TrainSim twin runs + recurrence refinement", design="§4 C07, §9.2",
+   text="Decided inside simulated training. (1) Fault injection with twin runs: rewriting, in the batch returned by one sample_batch call of train_mrq, every field after the first terminated step of each sampled sub-trajectory must leave the complete training trace (critic target/loss, encoder / dynamics / reward / done losses, priorities through later sampling, final hashes) bit-identical; rewriting ONE environment's reward script must leave A2C's advantages and returns of the other environments bit-identical. (2) Refinement against float64 recurrences on what simulated runs produce: A2C's advantages/returns per environment (GAE cut at terminated steps); the advantages PPO's loss receives, per environment over that environment's own rollout segment, and the observations PPO's value bootstrap is computed from (must belong to the same environment); reward-to-go and discount column of every dataset in train_reinforce / train_ac (incl. integer-typed rewards).",
+   note="Recurrences are decided on the sequences the simulated runs produce, not for all inputs. MR.Q's n-step return is part of C03's update refinement. Two genuine defects found and fixed (D12, D13: PPO).",
+   technique="deterministic simulation: twin runs with post-terminal data corruption / reward-script faults; refinement of recorded learning signals against float64 reference recurrences"),
  "C16": dict(level="exploration", engine="OptimSim", design="§4 C16",
    text="CMA-ES driven through its public ask/tell functions in train_cmaes order under scripted fitness feedback (ties, huge, constant, adjacent floats; +-inf/NaN as faults), dimensions 1-8, populations, active/default updates, against invariants and float64 recomputation (weights, incumbent, weighted mean of the mu best with tie enumeration, step-size growth bound, covariance symmetry/positive diagonal, flat-parameter round trip); train_cmaes on a scripted environment; CEM primitives and optimize_cem with recording fitness under adversarial bounds/means/variances.",
    note="Covariance positive-definiteness is not demanded (only symmetric, positive diagonal, finite, as the property says). Mean-in-box tolerance 4 float32 ulps (rounding of a convex combination). optimize_cem(return_history=True) with zero iterations raises; outside the property, not generated.",
